@@ -39,8 +39,10 @@ _tape = st.lists(st.integers(0, 10000), min_size=1, max_size=40)
 
 
 def strategy(tier):
-    prog = st.one_of(gen_prog.programs(max_stmts=30), gen_macro.macro_programs(single_file=True, max_stmts=35),
-                     gen_macro.macro_programs(single_file=False, max_stmts=35), gen_macro.macro_programs(single_file=False, max_stmts=35))
+    from vf.core import weighted
+
+    prog = weighted((1, gen_prog.programs(max_stmts=30)), (1, gen_macro.macro_programs(single_file=True, max_stmts=35)),
+                    (2, gen_macro.macro_programs(single_file=False, max_stmts=35)))
     return st.fixed_dictionaries({"p": prog, "layout": st.one_of(st.none(), _tape), "spell": _tape})
 
 
